@@ -176,7 +176,10 @@ def analyse(ck):
         okd = len(cs) == 1 and cs[0][1] == ("bin", "Eq", n_log, ("c", 64, None)) and tuple(cs[0][2]) == ("0",)
     ob.add({"C10", "C30"}, okd, "DOM", "gadget/lt/split_le-only-below-64", "split_le(right, n_log) is reachable only on the n_log != 64 edge (a 64-bit bit split has the p-alias)", sle_e[0].loc if sle_e else loc,
            [circ.describe_ctrl(c) for e in sle_e for c in e.ctrl])
-    rt = P.norm(fr.return_term())
+    from . import lc
+    lnest = lc.frame_nest(fr)
+    # loop-canonical: `for i in (0..n_log).rev() { left_bits[i]; right_bits[i] }` and the zip(..).rev() form are the same term
+    rt = P.norm(lnest.canon(P.norm(fr.return_term())))
     ok64 = False
     narrow = None
     if isinstance(rt, tuple) and rt[0] == "phi" and len(rt[2]) == 2:
@@ -211,8 +214,9 @@ def analyse(ck):
                         b_i = bs[0]
                         eq = eqs[0]
                         i = b_i[2]
-                        r = circ.range_expr(i[1][1]) if (isinstance(i, tuple) and i[0] == "elem" and isinstance(i[1], tuple) and i[1][0] == "rev") else (circ.range_expr(i[1]) if isinstance(i, tuple) and i[0] == "elem" else None)
-                        rng_ok = r is not None and P.const_of(r[0]) == 0 and P.norm(r[1]) == n_log
+                        # every bit position 0..n_log, visited from the most significant bit down (the prefix-equality flag `eq`
+                        # must cover the HIGHER bits when bit i is examined)
+                        rng_ok = lc.is_var(i, 0, n_log) and lc.reversed_loop(lnest, i) is True
                         b_ok = P.cb_args(b_i[1], "cb.split_le") is not None and [P.norm(z) for z in P.cb_args(b_i[1], "cb.split_le")] == [right, n_log]
                         ca = P.cb_args(a_i, "cb.constant_bool")
                         a_ok = False
